@@ -13,5 +13,22 @@ def leg(ctx, driver, dargs, only=None):
                                  e["outlen"], bytes(e["input"])[:120]))
 
 
+def lineloop(ctx, keep, what):
+    """LineLoop.tla: the sam / bed ReadString loops at buffer level under every schedule, fault and stop (M), and the model's
+    (input, fault, stop) -> items on the real readers (R). keep selects the cases that belong to the calling property."""
+    n = 0
+    for fmt in ("samh", "sam", "bed"):
+        ctx.model_check("MC_LineLoop", "MC_LineLoop_" + fmt, workers=16, heap="8g", timeout=3000)
+        r = ctx.model_check("MC_LineLoop", "MC_LineLoop_%s_emit" % fmt, workers=1, count=False)
+        cases = [c for c in codec.emitted_cases(r["out"]) if keep(c)]
+        n += len(cases)
+        codec.replay_cases(ctx, "lineloop-replay", cases, "line loop (%s)" % what,
+                           lambda c: "%s %r fault at %s (%s) stop %s" % (c["fmt"], bytes(c["text"]), c["at"], c["mode"], c["stop"]))
+    return n
+
+
 def replay(ctx, rp):
+    if rp.get("leg") == "R":
+        codec.replay_cases(ctx, rp["cmd"], [rp["case"]], "line loop", lambda c: "replayed")
+        return
     leg(ctx, rp["driver"], rp["dargs"], only=rp["sid"])
